@@ -306,6 +306,32 @@ structure SshIssueExt where
   expand : Str → Nat × Option Err
   sign : Str → Str → SignerKind → Int → Str × Nat × Option Err
 
+/-! ### cmd/keymasterd `postAuthX509CertHandler` -/
+
+/-- effects of the X.509 issuing handler: a refusal, a call of `certgen.GenUserX509Cert` (user, parsed public key,
+signer, lifetime, groups, organizations, service methods), a certificate handed to the audit stream, the response -/
+inductive X509Effect
+  | fail (status : Int)
+  | sign (user : Str) (pub : Nat) (signer : Nat) (duration : Int) (groups orgs methods : List Str)
+  | publish (der : Nat)
+  | respond
+deriving DecidableEq, Repr
+
+/-- externals: the directory's groups and service methods of a user, the upload, PEM decoding and the test for a
+`PUBLIC KEY` block, `x509.ParsePKIXPublicKey`, `certgen.ValidatePublicKeyStrength` (property C10), the CA signer for a
+key type, `x509.ParseCertificate`, the generator's result -/
+structure X509IssueExt where
+  userGroups : Str → List Str × Option Err
+  serviceMethods : Str → List Str × Option Err
+  formFile : Nat × Nat × Option Err
+  pemDecode : Nat → Nat × Nat
+  isPublicKeyBlock : Nat → Bool
+  parseKey : Nat → Nat × Option Err
+  strong : Nat → Bool × Option Err
+  signerFor : Nat → Nat × Nat × Option Err
+  parseCert : Nat → Nat × Option Err
+  sign : Str → Nat → Nat → Int → List Str → List Str → List Str → Nat × Option Err
+
 /-! ### cmd/keymasterd `consumeLoginChallenge` -/
 
 /-- `localUserData`: the pending challenge of a user; the two challenge pointers are compared by identity (numbers
